@@ -164,13 +164,26 @@ def symbol_propagation(ctx, L):
     v = loops[0].target.id
     PRM = ['self', 't', v]
 
+    NODE_CLASSES = ('Constant', 'Typedef', 'Enum', 'Struct', 'Union', 'Include')
+
+    def classes_reaching(stmt):
+        """The node classes for which the statement runs: read off the isinstance facts on the loop variable (the model's node
+        classes are disjoint, so a negative fact only removes the classes it names); None when anything else guards it."""
+        live = set(NODE_CLASSES)
+        for t_, pol, how in path_conditions(pp.module, pp, stmt):
+            if not (isinstance(t_, ast.Call) and isinstance(t_.func, ast.Name) and t_.func.id == 'isinstance' and len(t_.args) == 2
+                    and ws(unparse(t_.args[0])) == v):
+                return None
+            named = t_.args[1].elts if isinstance(t_.args[1], ast.Tuple) else [t_.args[1]]
+            names = set(ws(unparse(x)).replace('model.', '') for x in named)
+            if not names <= set(NODE_CLASSES):
+                return None
+            live = live & names if pol else live - names
+        return live
+
     def under(stmt, cls_guard):
-        """stmt runs exactly for the nodes of `cls_guard` (a further `not isinstance(node, model.Constant)` excludes nothing: the
-        node classes are disjoint)"""
-        got = set((P._sem(t_, PRM, {}, P.ALL_GLOBALS), pol) for t_, pol, how in path_conditions(pp.module, pp, stmt))
-        want = P.expected_facts(cls_guard.replace('node', v), True, PRM, pp.module)
-        extra = P.expected_facts('isinstance(%s, model.Constant)' % v, False, PRM, pp.module) if 'model.Constant' not in cls_guard else set()
-        return want <= got <= want | extra
+        want = set(re.findall(r'model\.(\w+)', cls_guard))
+        return classes_reaching(stmt) == want
 
     def stores(table, key, val):
         out = []
@@ -179,7 +192,9 @@ def symbol_propagation(ctx, L):
                 out.append(n)
         return out
     ty = stores('typedecls', v + '.name', v)
-    L.check(len(ty) == 1 and under(ty[0], 'isinstance(node, (model.Typedef, model.Enum, model.Struct, model.Union))'),
+    reach = [classes_reaching(x) for x in ty]
+    # (one store for all four classes, or one per arm of a ladder: together exactly the type-defining classes, each once)
+    L.check(bool(ty) and None not in reach and sorted(c for r in reach for c in r) == ['Enum', 'Struct', 'Typedef', 'Union'],
             'C16d.symbol-propagation', 'p_include_def|types', pp.site(), 'every type-defining node class of an included file enters the scope', '')
     cs = stores('constdecls', v + '.name', v)
     ok_c = len(cs) == 1 and under(cs[0], 'isinstance(node, model.Constant)')
